@@ -37,7 +37,12 @@
        synchronised state for EVERY table / store / defaults of the envelope (port lists with
        none, one or many lines included), so the whole model_run -- attach, then the history --
        is accepted by the oracle                            (C10_holds_outside_findings_partial)
-       [`_partial` only because of c10_known i = false] *)
+       [`_partial` because of c10_known i = false and, for OpSaveDuring (operations performed while a
+        save() is unanswered), flights_provable i: every REJECTED one is covered whatever is done in
+        between; an ACKNOWLEDGED one is covered when reads, needs_save(), assignments and in-place edits
+        happen in between -- what was changed after the save was sent stays pending, what was sent and
+        not changed since stops being pending (the repaired F5); only a second save() or an event
+        before the acknowledgement are judged by the oracle on the correspondence run alone] *)
 From Coq Require Import String.
 From Coq Require Import List Bool Ascii Arith NArith ZArith.
 From TxVerif Require Import Lib.Bytes Lib.CfgLib Spec.CfgTypes Spec.TorStore Spec.CfgOracle Spec.C10
@@ -100,7 +105,7 @@ Proof. exact parse_agrees. Qed.
 Print Assumptions C10_parse_agrees.
 
 Theorem C10_oracle_holds_partial : forall i st tr,
-  c10_scope i = true -> c10_known i = false ->
+  c10_scope i = true -> c10_known i = false -> flights_provable i = true ->
   Rel (options (i_table i)) (i_defaults i) st (mon0 i) ->
   m_run (option_names i) st (i_ops i) = Some tr ->
   oracle i tr = true.
@@ -108,7 +113,7 @@ Proof. exact oracle_from_synced. Qed.
 Print Assumptions C10_oracle_holds_partial.
 
 Theorem C10_holds_outside_findings_partial : forall i b snap tr,
-  c10_scope i = true -> c10_known i = false ->
+  c10_scope i = true -> c10_known i = false -> flights_provable i = true ->
   model_run i = Some (b, snap, tr) ->
   b = true /\ boot_oracle i b snap = true /\ oracle i tr = true.
 Proof. exact c10_oracle_holds. Qed.
@@ -143,6 +148,44 @@ Theorem C10_falsy_elements_are_sent :
     /\ concat (map o_wrote tr) = [bs "SETCONF Log=0 Log= Log=x"].
 Proof. exact falsy_example. Qed.
 Print Assumptions C10_falsy_elements_are_sent.
+
+(* the repaired finding F5 (df54f2d): a change made while a save() is unanswered survives the acknowledgement --
+   on the former witness the 8 is still pending after the 250 and the next save sends it *)
+Theorem C10_changed_during_flight_now_accepted :
+  c10_scope w_f5 = true /\ c10_known w_f5 = false /\
+  exists snap tr, model_run w_f5 = Some (true, snap, tr) /\ oracle w_f5 tr = true
+    /\ concat (map o_wrote tr) = [bs "SETCONF NumCPUs=4"; bs "SETCONF NumCPUs=8"]
+    /\ nth_error (map o_res tr) 2 = Some (XBool true).
+Proof. exact f5_now_accepted. Qed.
+Print Assumptions C10_changed_during_flight_now_accepted.
+
+(* ... and so does an in-place list edit (and the assignment of another option) made in that window *)
+Theorem C10_edited_during_flight_now_accepted :
+  c10_scope w_f5l = true /\ c10_known w_f5l = false /\
+  exists snap tr, model_run w_f5l = Some (true, snap, tr) /\ oracle w_f5l tr = true
+    /\ concat (map o_wrote tr) = [bs "SETCONF Log=""notice stdout"" Log=a"; bs "SETCONF Log=""notice stdout"" Log=a Log=b NumCPUs=8"].
+Proof. exact f5l_now_accepted. Qed.
+Print Assumptions C10_edited_during_flight_now_accepted.
+
+(* with a REJECTED answer everything stays pending: the assignment and the in-place edit made while the
+   SETCONF was unanswered are carried by the second save() (written once the first is answered) and by the next *)
+Theorem C10_flight_rejected_keeps_everything :
+  c10_scope w_flight_rej = true /\ c10_known w_flight_rej = false /\
+  exists snap tr, model_run w_flight_rej = Some (true, snap, tr) /\ oracle w_flight_rej tr = true
+    /\ concat (map o_wrote tr) = [bs "SETCONF NumCPUs=4"; bs "SETCONF NumCPUs=8 Log=""notice stdout"" Log=x";
+                                  bs "SETCONF NumCPUs=8 Log=""notice stdout"" Log=x"].
+Proof. exact flight_rej_example. Qed.
+Print Assumptions C10_flight_rejected_keeps_everything.
+
+(* an acknowledged save with reads, needs_save() and a second save() before the answer: the second SETCONF
+   repeats what is not yet acknowledged; afterwards nothing is pending and a further save writes nothing *)
+Theorem C10_flight_acknowledged_quiet :
+  c10_scope w_flight_ack = true /\ c10_known w_flight_ack = false /\
+  exists snap tr, model_run w_flight_ack = Some (true, snap, tr) /\ oracle w_flight_ack tr = true
+    /\ concat (map o_wrote tr) = [bs "SETCONF NumCPUs=4"; bs "SETCONF NumCPUs=4"]
+    /\ nth_error (map o_res tr) 2 = Some (XBool false).
+Proof. exact flight_ack_example. Qed.
+Print Assumptions C10_flight_acknowledged_quiet.
 
 Theorem C10_edit_while_detached_refuted :
   exists i, edit_while_detached i = true /\ c10_scope i = true /\
